@@ -582,6 +582,19 @@ impl VLog {
 		Ok(vlog)
 	}
 
+	/// Re-reads the VLog directory after its files have been replaced on disk
+	/// (restore from a checkpoint): drops the open writer, the cached read
+	/// handles and the file table of the discarded timeline and starts again
+	/// from the files that are there now, exactly like `new` does.
+	pub(crate) fn reset_after_restore(&self) -> Result<()> {
+		*self.writer.write() = None;
+		self.file_handles.write().clear();
+		self.files_map.write().clear();
+		self.next_file_id.store(1, Ordering::SeqCst);
+		self.active_writer_id.store(0, Ordering::SeqCst);
+		self.prefill_file_handles()
+	}
+
 	/// Appends a key+value pair to the log and returns a ValuePointer
 	pub(crate) fn append(&self, key: &[u8], value: &[u8]) -> Result<ValuePointer> {
 		// Ensure we have a writer
